@@ -225,14 +225,14 @@ func generate(g *core.Gen) {
 	}
 	exh(3, g.N(3, 10))
 	exh(4, g.N(4, 20))
-	exh(5, g.N(2, 12))
+	exh(5, g.N(1, 12))
 	exh(6, g.N(0, 6))
 	if g.Thorough() {
 		exh(7, 2)
 	}
 
 	// ---- random trees, random orders
-	for i, n := 0, g.N(140, 2000); i < n; i++ {
+	for i, n := 0, g.N(110, 2000); i < n; i++ {
 		size := 4 + r.Intn(g.N(28, 60))
 		if r.Chance(1, 8) {
 			size = g.N(40, 100) + r.Intn(g.N(21, 300))
@@ -482,7 +482,7 @@ func genInvRec(g *core.Gen) {
 		tree []blk
 		ops  []op
 	}
-	for i, n := 0, g.N(180, 3000); i < n; i++ {
+	for i, n := 0, g.N(150, 3000); i < n; i++ {
 		size := 3 + r.Intn(g.N(14, 40))
 		tree := relabel(r, randTree(r, size, int(r.Pick(0, 1, 1, 2)), int(r.Pick(0, 0, 100))))
 		ops := randomOrder(r, tree, 0, int(r.Pick(0, 0, 0, 100)), int(r.Pick(90, 100, 100)))
